@@ -430,6 +430,7 @@ def run (ctx):
   c09s_.connection_str_total(ctx, repo, 'D2')
   # ---- mechanisms this property shares with others: their checks' rules about these functions are obligations here too
   ctx.include('C01', ['_unpack_nx_vendor'], "the vendor decode hook sits in the controller's unpacker table")
+  ctx.include('C01', ['.unpack'], "the framing loops advance by what each decoder reports as consumed: it must be the declared length, from whatever position the message starts at")
 
 def _sig (lines):
   return "#" + getattr(lines, 'sig', '?')
